@@ -137,7 +137,7 @@ Lemma spec_ok_ext linked o req tr st h1 h2 b j1 j2 :
   spec_ok linked o req tr (mkresp st h2 b j2) = true.
 Proof.
   intros S H J. pose proof (headers_eqb_get h1 h2 H) as G.
-  unfold spec_ok, status_ok, headers_ok, has, hnum in *. cbn [p_json p_hdrs p_status p_body] in *.
+  unfold spec_ok, status_ok, headers_ok, errors_answered, is_failure, has, hnum in *. cbn [p_json p_hdrs p_status p_body] in *.
   rewrite <- !G.
   destruct j1 as [[n t|r|m|w]|], j2 as [[n' t'|r'|m'|w']|]; cbn in J; try discriminate; try exact S.
   apply andb_true_iff in J as [J _]. apply beqb_eq in J. now rewrite <- J.
